@@ -392,7 +392,7 @@ def main():
         })
     man = {
         "version": 1,
-        "setup_cmd": "cd lean && lake build",
+        "setup_cmd": "sh tools/setup.sh",
         "hooks": {
             "guard": "SVGELEMENTS_VERIF",
             "enable": "no hooks are needed: every observation goes through public API (PYTHONPATH=/repo, in-process)",
